@@ -293,9 +293,8 @@ func SubscribeWithReplay[T any](
 	lastOffset, _ := subStore.LoadOffset(ctx, subscriptionID)
 
 	// Replay missed events
-	var eventType = reflect.TypeOf((*T)(nil)).Elem()
-	// Use consistent type naming with EventType() function
-	typeName := eventType.String()
+	// Use the same type name events of type T are persisted under
+	typeName := eventTypeNameOf[T]()
 	err := bus.Replay(ctx, lastOffset, func(stored *StoredEvent) error {
 		// Apply upcasts if available
 		eventData, eventTypeName := stored.Data, stored.Type
@@ -342,6 +341,20 @@ func SubscribeWithReplay[T any](
 	}
 
 	return Subscribe(bus, wrappedHandler, opts...)
+}
+
+// eventTypeNameOf returns the name EventType reports for events of type T,
+// honouring TypeNamer implementations on value and on pointer receivers.
+func eventTypeNameOf[T any]() string {
+	t := reflect.TypeOf((*T)(nil)).Elem()
+	switch t.Kind() {
+	case reflect.Interface:
+		return t.String()
+	case reflect.Pointer:
+		// a non-nil pointer, so that EventTypeName may use its receiver
+		return EventType(reflect.New(t.Elem()).Interface())
+	}
+	return EventType(reflect.Zero(t).Interface())
 }
 
 // MemoryStore is a simple in-memory implementation of EventStore and SubscriptionStore.
